@@ -2,6 +2,7 @@ import Std.Data.HashMap
 import Std.Data.HashSet
 import RegexVerif.Sexp
 import RegexVerif.Model.Class
+import RegexVerif.Generated.Class
 
 namespace RegexVerif.Driver
 open RegexVerif Sexp
@@ -69,6 +70,14 @@ private def mkOrbit (rest : List Sexp) : Nat → List Nat :=
     | _ => m) {}
   fun i => (tbl.get? i).getD []
 
+private def mkLower (rest : List Sexp) : Nat → Nat :=
+  let rows := (lookup "lower" rest).getD []
+  let tbl : Std.HashMap Nat Nat := rows.foldl (fun m row =>
+    match row.nats? with
+    | some [i, l] => m.insert i l
+    | _ => m) {}
+  fun i => (tbl.get? i).getD i
+
 private def bits (xs : List Bool) : Sexp := atom (String.ofList ('b' :: xs.map (fun b => if b then '1' else '0')))
 
 private def parseItem (e : Sexp) : Option Item :=
@@ -111,7 +120,8 @@ def handleC16 (args : List Sexp) : String :=
       | _ => "(bad-args)"
     | some "caseq" =>
       -- (c16 caseq (levels (neg (items…)) (neg (items…)) …) (orbit …) (oracle …)): the class as
-      -- scanCharSet leaves it under IgnoreCase (still `building`), copied, case equivalences added
+      -- scanCharSet leaves it under IgnoreCase (items, then addLowercase with the `(lower (i l)…)` rows as
+      -- unicode.ToLower; still `building`), copied, case equivalences added
       match rest with
       | lv :: more =>
         let cat := mkOracle more
@@ -119,7 +129,8 @@ def handleC16 (args : List Sexp) : String :=
           match e with
           | .list [neg, items] =>
             match neg.bool?, items.list?.bind (·.mapM parseItem) with
-            | some ng, some its => some (buildItems cat ng its)
+            | some ng, some its =>
+              some (Flat.addLowercase cat (mkLower more) RegexVerif.Generated.lcTable false (buildItems cat ng its))
             | _, _ => none
           | _ => none
         match (tagged? "levels" lv).bind (·.mapM level) with
